@@ -34,7 +34,7 @@ def concretise(c, rnd):
         els.append(geom.ref_element(rk, b, ids[i]))
     refs = rnd.choice([" ", ", "]).join("#" + ids[i] for i in range(len(c["refs"])))
     m = f' margin="{margin_str(c["margin"])}"' if c["margin"] else ""
-    me = f'<{c["kind"]} id="s" {c["mode"]}="{refs}"{m}/>'
+    me = f'<{c["kind"]} id="s" {c["mode"].split("-")[0]}="{refs}"{m}/>'
     if rnd.random() < 0.5:
         return "<svg>" + "".join(els) + me + "</svg>"
     return "<svg>" + me + "".join(els) + "</svg>"      # forward references
@@ -60,7 +60,7 @@ def run(rep, tier, seed):
     cases = []
     for j, c in enumerate(recs):
         e = c["exp"]
-        if e["x2"] - e["x1"] <= 0 or e["y2"] - e["y1"] <= 0:
+        if c["mode"] != "inside-disjoint" and (e["x2"] - e["x1"] <= 0 or e["y2"] - e["y1"] <= 0):
             continue
         xml = concretise(c, random.Random(rnd.random()))
         cases.append({"k": f"c12-{j}", "xml": xml, "case": c, "key": xml})
@@ -68,6 +68,13 @@ def run(rep, tier, seed):
     def check(c, resp):
         cs = c["case"]
         mode = cs["mode"]
+        if mode == "inside-disjoint":
+            # no common area: only "the containment attributes never appear in the output" is claimed
+            if resp["status"] != "ok":
+                return None
+            el = geom.find_by_id(resp["out"], "s")
+            bad = geom.residue(el) if el is not None else []
+            return ("contain:inside:residue", f"attributes left behind: {bad}") if bad else None
         if resp["status"] != "ok":
             return (f"contain:{mode}:not-ok", f"transform failed: {resp.get('err')}")
         el = geom.find_by_id(resp["out"], "s")
